@@ -9,6 +9,7 @@ import (
 	"strconv"
 	"strings"
 	"unicode"
+	"unicode/utf8"
 )
 
 // ---------- spec expression AST ----------
@@ -93,10 +94,18 @@ func lexSpec(src string) ([]tok, error) {
 			}
 			out = append(out, tok{"num", src[i:j]})
 			i = j
-		case unicode.IsLetter(rune(c)) || c == '_' || c == '$':
+		case unicode.IsLetter(rune(c)) || c == '_' || c == '$' || c >= 0x80:
 			j := i
-			for j < len(src) && (unicode.IsLetter(rune(src[j])) || unicode.IsDigit(rune(src[j])) || src[j] == '_' || src[j] == '$') {
-				j++
+			for j < len(src) {
+				r, sz := utf8.DecodeRuneInString(src[j:])
+				if unicode.IsLetter(r) || unicode.IsDigit(r) || r == '_' || r == '$' {
+					j += sz
+					continue
+				}
+				break
+			}
+			if j == i {
+				return nil, fmt.Errorf("spec: unexpected character %q in %q", c, src)
 			}
 			out = append(out, tok{"id", src[i:j]})
 			i = j
@@ -180,6 +189,11 @@ func (p *sparser) expr() SExpr {
 					p.fail("expected type name")
 				}
 				ty = tt.v
+				if p.isOp(".") {
+					p.p++
+					t2 := p.next()
+					ty += "." + t2.v
+				}
 			}
 			tys = append(tys, ty)
 			if p.isOp(",") {
